@@ -5,8 +5,16 @@
    Output: eight (tag, path) pairs — tag 0 None, 1 Some path, 2 panic — for
    breakpad_sym.cache_rel, .server_rel, code_info, extra_debuginfo.cache_rel, .server_rel,
    binary.cache_rel, .server_rel, moz_lookup(binary).server_rel. *)
-From RM Require Import C17.Model.
+(* Round 5: the functions run here are the GENERATED ones (Gen/C17Lookup.v, compiled from the Rust source of the
+   checkout by translate/c17_lookup.py): g_breakpad_sym_lookup, g_code_info_breakpad_sym_lookup,
+   g_extra_debuginfo_lookup, g_binary_lookup, g_moz_lookup, g_join_rel_enc.  C17/Tie.v proves them equal to
+   C17/Model.v; this file does not depend on that proof, so a checkout whose source compiles to a DIFFERENT model is
+   still compared with its own code. *)
+From RM Require Import C17.Model C17.Prims Gen.C17Lookup.
 Open Scope Z_scope.
+
+Definition mk_module (code_file : str) (debug_file dbg_id code_id : option str) : module_view :=
+  {| m_code_file := code_file; m_code_identifier := code_id; m_debug_file := debug_file; m_debug_identifier := dbg_id |}.
 
 (* DebugId::from_breakpad(..).breakpad().to_string() on canonical input: "{:X}{:x}" *)
 Definition render_breakpad (raw : str) : str :=
@@ -15,23 +23,33 @@ Definition render_breakpad (raw : str) : str :=
 (* CodeId::new: retain(is_ascii_hexdigit); make_ascii_lowercase *)
 Definition code_id_new (raw : str) : str := map lower (filter is_hex raw).
 
+Definition lookup_eqb (a b : option file_lookup) : bool :=
+  match a, b with
+  | None, None => true
+  | Some x, Some y => str_eqb (cache_rel x) (cache_rel y) && str_eqb (server_rel x) (server_rel y)
+  | _, _ => false
+  end.
 Definition tag_opt (o : option str) : Z * str :=
   match o with Some p => (1, p) | None => (0, []) end.
 
 Definition run_case (code_file : str) (debug_file did_raw cid_raw : option str) : list (Z * str) :=
   let dbg_id := option_map render_breakpad did_raw in
   let code_id := option_map code_id_new cid_raw in
-  let bs := lookup KBreakpadSym code_file debug_file dbg_id code_id in
-  let ed := lookup KExtraDebugInfo code_file debug_file dbg_id code_id in
-  let bn := lookup KBinary code_file debug_file dbg_id code_id in
+  let m := mk_module code_file debug_file dbg_id code_id in
+  let bs := g_breakpad_sym_lookup m in
+  let ed := g_extra_debuginfo_lookup m in
+  let bn := g_binary_lookup m in
   [ tag_opt (option_map cache_rel bs); tag_opt (option_map server_rel bs);
-    tag_opt (code_info_breakpad_sym_lookup code_file code_id);
+    tag_opt (g_code_info_breakpad_sym_lookup m);
     tag_opt (option_map cache_rel ed); tag_opt (option_map server_rel ed);
     tag_opt (option_map cache_rel bn); tag_opt (option_map server_rel bn);
     match bn with
     | None => (0, [])
-    | Some l => match moz_lookup l with Ret l' => (1, server_rel l') | _ => (2, []) end
-    end ].
+    | Some l => match g_moz_lookup l with Ret l' => (1, server_rel l') | _ => (2, []) end
+    end;
+    (* lookup(module, kind) agrees with the direct builders (1) or not (0) *)
+    (if lookup_eqb (g_lookup m KBreakpadSym) bs && lookup_eqb (g_lookup m KExtraDebugInfo) ed
+        && lookup_eqb (g_lookup m KBinary) bn then 1 else 0, []) ].
 
 (* ---- url probe predictions (C17/UrlModel.v) -------------------------------------------
    [url_case]: the request paths HttpSymbolSupplier makes, in order, for
@@ -41,14 +59,14 @@ Definition run_case (code_file : str) (debug_file did_raw cid_raw : option str) 
 From RM Require Import C17.UrlModel.
 
 Definition predict (base_path rel : str) : Z * str :=
-  match request_path base_path rel with Some r => (1, r) | None => (2, []) end.
+  match url_join_path base_path (g_join_rel_enc rel) with Some r => (1, r) | None => (2, []) end.
 
 Definition file_requests (cab : bool) (base_path : str) (o : option file_lookup) : list (Z * str) :=
   match o with
   | None => []
   | Some l =>
       predict base_path (server_rel l) ::
-      (if cab then match moz_lookup l with Ret l' => [predict base_path (server_rel l')] | _ => [(3, [])] end
+      (if cab then match g_moz_lookup l with Ret l' => [predict base_path (server_rel l')] | _ => [(3, [])] end
        else [])
   end.
 
@@ -56,18 +74,19 @@ Definition url_case (cab : bool) (base_path code_file : str) (debug_file did_raw
   : list (list (Z * str)) :=
   let dbg_id := option_map render_breakpad did_raw in
   let code_id := option_map code_id_new cid_raw in
+  let m := mk_module code_file debug_file dbg_id code_id in
   let sym :=
     match debug_file, dbg_id with
     | Some _, Some _ =>
-        match lookup KBreakpadSym code_file debug_file dbg_id code_id with
+        match g_lookup m KBreakpadSym with
         | Some l => [predict base_path (server_rel l)] | None => [] end
     | _, _ =>
-        match code_info_breakpad_sym_lookup code_file code_id with
+        match g_code_info_breakpad_sym_lookup m with
         | Some p => [predict base_path p] | None => [] end
     end in
   [ sym;
-    file_requests cab base_path (lookup KBinary code_file debug_file dbg_id code_id);
-    file_requests cab base_path (lookup KExtraDebugInfo code_file debug_file dbg_id code_id) ].
+    file_requests cab base_path (g_lookup m KBinary);
+    file_requests cab base_path (g_lookup m KExtraDebugInfo) ].
 
 (* [base_case]: the server URL is "http://host/" ++ suffix (HttpSymbolSupplier::new appends '/'
    unless it ends with one; Url::parse then runs the same path parser); the request for the plain
